@@ -14,6 +14,8 @@ package httpserver
 //	           the server side: limitListenerConn.Close → release once); closing an already
 //	           closed one is a no-op
 //	set n      reload of the HTTPServer with maxConnections = n (grow, shrink below usage, same)
+//	half k     the client of the k-th accepted connection sends a request whose handler blocks, then half-closes
+//	           (CloseWrite): the connection is still being served and counts until the server closes it
 //
 // The count of accepted open connections is maintained by `http.Server.ConnState`
 // (StateNew right after LimitListener.Accept returned, StateClosed after the connection's
@@ -30,13 +32,16 @@ import (
 	"net/http"
 	"reflect"
 	goruntime "runtime"
+	"strconv"
 	"strings"
 	"sync"
 	"testing"
 	"time"
 	"unsafe"
 
+	"github.com/megaease/easegress/pkg/context"
 	"github.com/megaease/easegress/pkg/context/contexttest"
+	"github.com/megaease/easegress/pkg/protocols/httpprot"
 	"github.com/megaease/easegress/pkg/supervisor"
 	"github.com/megaease/easegress/pkg/util/verifh"
 )
@@ -187,7 +192,7 @@ func c17rPeek(r *runtime) (int64, []int64) {
 func c17rSpec(port int, maxConn uint32, gen int) (*supervisor.Spec, error) {
 	// `cacheSize` differs between generations, so a reload with an unchanged cap is still a different spec
 	// (both are on needRestartServer's list of options that do not restart the server)
-	return supervisor.NewSpec(fmt.Sprintf("kind: HTTPServer\nname: verifc17\nport: %d\nkeepAlive: true\nhttps: false\nmaxConnections: %d\ncacheSize: %d\n",
+	return supervisor.NewSpec(fmt.Sprintf("kind: HTTPServer\nname: verifc17\nport: %d\nkeepAlive: true\nhttps: false\nmaxConnections: %d\ncacheSize: %d\nrules:\n- paths:\n  - pathPrefix: /busy\n    backend: busy\n",
 		port, maxConn, 10+gen%2))
 }
 
@@ -206,7 +211,39 @@ func c17rExec(raw json.RawMessage) interface{} {
 	if in.Cap0 > 1000 {
 		in.Cap0 = 1000
 	}
-	mapper := &contexttest.MockedMuxMapper{}
+	// backend "busy": the handler of `GET /busy` (header X-Gate: k) signals that it runs and then blocks until the
+	// harness opens gate k — a handler that is still busy with a connection whose client has half-closed
+	const maxGates = 64
+	var gates, entered [maxGates]chan struct{}
+	var gateOnce [maxGates]sync.Once
+	for g := range gates {
+		gates[g], entered[g] = make(chan struct{}), make(chan struct{})
+	}
+	openGate := func(g int) {
+		if g >= 0 && g < maxGates {
+			gateOnce[g].Do(func() { close(gates[g]) })
+		}
+	}
+	mapper := &contexttest.MockedMuxMapper{MockedGetHandler: func(name string) (context.Handler, bool) {
+		if name != "busy" {
+			return nil, false
+		}
+		return &contexttest.MockedHandler{MockedHandle: func(ctx *context.Context) string {
+			if rq, ok := ctx.GetRequest(context.DefaultNamespace).(*httpprot.Request); ok {
+				if g, err := strconv.Atoi(rq.HTTPHeader().Get("X-Gate")); err == nil && g >= 0 && g < maxGates {
+					select {
+					case <-entered[g]:
+					default:
+						close(entered[g])
+					}
+					<-gates[g]
+				}
+			}
+			resp, _ := httpprot.NewResponse(nil)
+			ctx.SetResponse(context.DefaultNamespace, resp)
+			return ""
+		}}, true
+	}}
 	var hs *HTTPServer
 	port := 0
 	for try := 0; try < 6 && hs == nil; try++ {
@@ -325,6 +362,8 @@ func c17rExec(raw json.RawMessage) interface{} {
 	}
 	bigSeen := false
 	lastSet := in.Cap0
+	halfClosed := map[string]bool{}
+	gateOf := map[string]int{}
 	for i, op := range in.Ops {
 		if r.startNum != 1 {
 			break
@@ -363,6 +402,9 @@ func c17rExec(raw json.RawMessage) interface{} {
 					st.open--
 				}
 				st.mu.Unlock()
+				if halfClosed[a] {
+					openGate(gateOf[a]) // the busy handler returns; net/http then closes the connection
+				}
 				c.Close()
 				// the server-side Close is asynchronous here; make the operation synchronous as in the model
 				for dl := time.Now().Add(40 * time.Second); time.Now().Before(dl); {
@@ -375,6 +417,34 @@ func c17rExec(raw json.RawMessage) interface{} {
 					time.Sleep(100 * time.Microsecond)
 				}
 			}
+		case "half":
+			// the client of the k-th accepted connection sends `GET /busy`, half-closes (CloseWrite) and the
+			// handler stays busy: net/http's background read sees EOF while the connection is still being served
+			st.mu.Lock()
+			a := ""
+			if op.K >= 0 && op.K < len(st.accepted) && op.K < maxGates {
+				a = st.accepted[op.K]
+			}
+			st.mu.Unlock()
+			c := clients[a]
+			if a == "" || c == nil || clientClosed[a] {
+				skipped = append(skipped, i)
+				break
+			}
+			if halfClosed[a] {
+				break // already half-closed: nothing more happens
+			}
+			halfClosed[a] = true
+			gateOf[a] = op.K
+			c.Write([]byte("GET /busy HTTP/1.1\r\nHost: c17\r\nX-Gate: " + strconv.Itoa(op.K) + "\r\n\r\n"))
+			select {
+			case <-entered[op.K]:
+			case <-time.After(40 * time.Second):
+			}
+			if tc, ok := c.(*net.TCPConn); ok {
+				tc.CloseWrite()
+			}
+			time.Sleep(2 * time.Millisecond) // let the server's background read return EOF
 		case "set":
 			// capacities near maxCapacity: only between settled, quiet snapshots, and only shrinks afterwards
 			// (a grow next to a pending / parked shrink would make Weighted.Release panic, see the sem harness)
@@ -423,7 +493,9 @@ func c17rExec(raw json.RawMessage) interface{} {
 			continue
 		}
 		c.SetDeadline(time.Now().Add(40 * time.Second))
-		if _, err := c.Write([]byte("GET /again HTTP/1.1\r\nHost: c17\r\n\r\n")); err != nil {
+		if halfClosed[a] {
+			openGate(gateOf[a]) // the answer of the busy request must still arrive on the half-closed connection
+		} else if _, err := c.Write([]byte("GET /again HTTP/1.1\r\nHost: c17\r\n\r\n")); err != nil {
 			continue
 		}
 		// two responses are due on this connection (first request, this one)
@@ -450,6 +522,9 @@ func c17rExec(raw json.RawMessage) interface{} {
 		}
 		r.limitListener.SetMaxConnection(1000)
 		time.Sleep(200 * time.Microsecond)
+	}
+	for g := 0; g < maxGates; g++ {
+		openGate(g)
 	}
 	hs.Close()
 	// runtime.Close never sets stateClosed, so the runtime's checkFailed goroutine (10 s ticker) would
@@ -528,6 +603,10 @@ func c17rGen(r *verifh.Rand, i int) interface{} {
 			if dials == 0 {
 				continue
 			}
+			if r.Intn(4) == 0 {
+				op = c17rOp{Op: "half", K: r.Intn(dials)} // the client half-closes while its handler is busy
+				break
+			}
 			op = c17rOp{Op: "close", K: r.Intn(dials)} // may hit a not yet accepted index (skipped) or a closed one
 		case 6:
 			op = c17rOp{Op: "set", N: uint32(r.Range(1, capNow))} // shrink (possibly below usage) or same
@@ -545,7 +624,7 @@ func c17rGen(r *verifh.Rand, i int) interface{} {
 		if k := len(in.Ops); k >= 3 && in.Ops[k-1].Race && in.Ops[k-2].Race && in.Ops[k-3].Race {
 			op.Race = false // at most four operations race at a time (the judge explores every order)
 		}
-		if op.Op == "close" {
+		if op.Op == "close" || op.Op == "half" {
 			op.Race = false // the server-side close is asynchronous: settle after it
 			if len(in.Ops) > 0 {
 				// whether its target exists must not depend on a race
